@@ -125,7 +125,11 @@ def commonValidate (source : String) (attrs : List Annot) : List Diag :=
 
 /-! ### receiver-level checks -/
 
-def findFirstByValue (attrs : List Annot) (v : String) : Option Annot := attrs.find? (·.value = v)
+/-- `AnnotationHolder.FindFirstParameterBinding`: the first annotation of a BINDING kind (@Query, @Header, @Path,
+    @Body, @FormField) whose value is the parameter's name; annotations of other kinds that merely carry the same
+    value are skipped (before fix 08fcd1b the first annotation of ANY kind was taken: finding C10-F1) -/
+def findFirstByValue (attrs : List Annot) (v : String) : Option Annot :=
+  attrs.find? fun a => a.value = v && ["query", "header", "path", "body", "formfield"].contains a.name.toLower
 
 inductive PassedIn | query | header | path | body | form
 deriving DecidableEq, Repr
